@@ -57,6 +57,7 @@ MODELS = {
     '@__cxa_begin_catch': dict(c='vp_cxa_begin_catch', kind='pure'),
     '@__cxa_end_catch': dict(c='vp_cxa_end_catch', kind='pure'),
     '@_ZSt9terminatev': dict(c='vp_terminate', kind='pure'),
+    '@_ZSt21__glibcxx_assert_failPKciS0_S0_': dict(c='vp_glibcxx_assert_fail', kind='pure', vararg=0),
     '@abort': dict(c='vp_terminate', kind='pure'),
     '@__cxa_pure_virtual': dict(c='vp_terminate', kind='pure'),
     '@__cxa_guard_acquire': dict(c='vp_cxa_guard_acquire', kind='block', en='vp_guard_can_enter', bk='VP_B_GUARD'),
@@ -67,6 +68,14 @@ MODELS = {
     '@_ZSt17rethrow_exceptionNSt15__exception_ptr13exception_ptrE': dict(c='vp_rethrow_exception', kind='pure'),
     '@_ZNSt15__exception_ptr13exception_ptr9_M_addrefEv': dict(c='vp_eptr_addref', kind='pure'),
     '@_ZNSt15__exception_ptr13exception_ptr10_M_releaseEv': dict(c='vp_eptr_release', kind='pure'),
+    '@_ZNSt9exceptionD2Ev': dict(c='vp_noop_p', kind='pure'), '@_ZNSt9exceptionD1Ev': dict(c='vp_noop_p', kind='pure'),
+    '@_ZNSt15__exception_ptr13exception_ptr4swapERS0_': dict(c='vp_eptr_swap', kind='pure'),
+    '@_ZSt29_Rb_tree_insert_and_rebalancebPSt18_Rb_tree_node_baseS0_RS_': dict(c='vp_rb_insert', kind='mem'),
+    '@_ZSt18_Rb_tree_incrementPSt18_Rb_tree_node_base': dict(c='vp_rb_increment', kind='mem'),
+    '@_ZSt18_Rb_tree_incrementPKSt18_Rb_tree_node_base': dict(c='vp_rb_increment', kind='mem'),
+    '@_ZSt18_Rb_tree_decrementPSt18_Rb_tree_node_base': dict(c='vp_rb_decrement', kind='mem'),
+    '@_ZSt18_Rb_tree_decrementPKSt18_Rb_tree_node_base': dict(c='vp_rb_decrement', kind='mem'),
+    '@_ZSt28_Rb_tree_rebalance_for_erasePSt18_Rb_tree_node_baseRS_': dict(c='vp_rb_erase', kind='mem'),
     '@memcmp': dict(c='vp_memcmp', kind='mem'), '@strlen': dict(c='vp_strlen', kind='mem'),
     '@memchr': dict(c='vp_memchr', kind='mem'), '@strcmp': dict(c='vp_strcmp', kind='mem'),
     '@bcmp': dict(c='vp_memcmp', kind='mem'),
@@ -759,7 +768,7 @@ class FuncEmitter:
             return
         cname = m['c']
         nfix = m.get('vararg')
-        av = ', '.join(A(k) for k in range(len(args) if not nfix else nfix))
+        av = ', '.join(A(k) for k in range(len(args) if nfix is None else nfix))
         if kind == 'pure' or kind == 'mem':
             if kind == 'mem': s.visible('mem', cn)
             s.S(f"{asg}{cname}({av});")
